@@ -45,7 +45,18 @@ def toml_value(v):
     raise TypeError(v)
 
 
+MD_STYLE = dict(key=lambda k: k, gap=" ")  # how metadata is written: keyword letter case, blanks between the fields of one item
+
+
 def md_lines(name, v, sep="="):
+    out = _md_lines(name, v, sep)
+    if out:
+        k, rest = out[0].split(":", 1)
+        out[0] = MD_STYLE["key"](k) + ":" + rest
+    return out
+
+
+def _md_lines(name, v, sep="="):
     if isinstance(v, bool):
         return [f"{name}: {'true' if v else 'false'}"]
     if isinstance(v, str) and "\n" in v:
@@ -55,7 +66,8 @@ def md_lines(name, v, sep="="):
         return [f"{name}: {v}"]
     if isinstance(v, list):
         if name == "extra_filetypes":
-            items = [f"{x['extension']} {x['comment']}" + (f" {x['lexer']}" if x.get("lexer") else "") for x in v]
+            g = MD_STYLE["gap"]
+            items = [f"{x['extension']}{g}{x['comment']}" + (f"{g}{x['lexer']}" if x.get("lexer") else "") for x in v]
         else:
             items = [str(x) for x in v]
         if not items:
@@ -342,8 +354,15 @@ def run_case(st: Stats, case):
     kind = case[0]
     fields, _ = field_table()
     if kind == "single":
-        _, name, v, cwd = case
-        check_formats(st, {name: v}, f"single/{type_class(fields[name])}", dict(space="single", option=name, cls=type_class(fields[name]), cwd=cwd), cwd)
+        _, name, v, cwd, *style = case
+        style = style[0] if style else "plain"
+        # other ways of writing the same metadata: keywords are case-insensitive; fields of an item may be separated by several blanks
+        MD_STYLE.update(key={"plain": lambda k: k, "Key": str.capitalize, "KEY": str.upper}.get(style, lambda k: k), gap="   " if style == "gaps" else " ")
+        try:
+            check_formats(st, {name: v}, f"single/{type_class(fields[name])}" + ("" if style == "plain" else "/md-" + style),
+                          dict(space="single", option=name, cls=type_class(fields[name]), cwd=cwd, md_style=style), cwd)
+        finally:
+            MD_STYLE.update(key=lambda k: k, gap=" ")
     elif kind == "pair":
         _, n1, v1, n2, v2 = case
         check_formats(st, {n1: v1, n2: v2}, "pair", dict(space="pair", option=f"{n1}+{n2}", cls=f"{type_class(fields[n1])}+{type_class(fields[n2])}", cwd="proj"))
@@ -426,6 +445,12 @@ def gen_cases(tier):
         for v in values_for(name, cls):
             singles.append((name, v))
             yield ("single", name, v, "proj")
+            # multi-line values / lists under a capitalised keyword; aligned columns in extra_filetypes
+            if (isinstance(v, (list, dict)) and len(v) > 1) or (isinstance(v, str) and "\n" in v) or isinstance(v, bool):
+                yield ("single", name, v, "proj", "Key")
+                yield ("single", name, v, "proj", "KEY")
+            if cls == "filetypes":
+                yield ("single", name, v, "proj", "gaps")
             if cls in ("path", "list-path"):
                 yield ("single", name, v, "parent")
                 yield ("single", name, v, "elsewhere")
